@@ -86,7 +86,14 @@ type Conn struct {
 	readDone chan struct{}
 	tagKnown chan struct{}
 	closed   bool
+	// stopAfter > 0: the reader stops for good (without draining) once it
+	// has read that many bytes, like a reader that hits a protocol error
+	stopAfter uint64
 }
+
+// StopReaderAfter makes this side's reader stop reading once it has read n
+// bytes of the peer's stream.
+func (c *Conn) StopReaderAfter(n uint64) { c.mu.Lock(); c.stopAfter = n; c.mu.Unlock() }
 
 // Session is one relay with one server, one client and optionally a second
 // client.
@@ -514,6 +521,13 @@ func (c *Conn) readLoop() {
 	}
 	want := make([]byte, len(buf))
 	for {
+		c.mu.Lock()
+		stop := c.stopAfter > 0 && c.rOff >= c.stopAfter
+		c.mu.Unlock()
+		if stop {
+			c.S.Rec.Emit("note", "what", "reader stopped", "side", c.Side, "conn", c.ID)
+			return
+		}
 		n, err := c.Sec.Read(buf)
 		if n > 0 {
 			c.mu.Lock()
@@ -616,6 +630,23 @@ func (c *Conn) Close(why string) {
 		c.S.Rec.Emit("closeRet", "side", c.Side, "conn", c.ID, "err", errStr(err))
 	case <-time.After(c.S.Patience):
 		c.S.Rec.Emit("closeRet", "side", c.Side, "conn", c.ID, "err", "harness: Close did not return")
+	}
+}
+
+// PeerID waits for the stream tag and returns the id of the client connection
+// at the other end (0 if the tag did not arrive).
+func (c *Conn) PeerID(patience time.Duration) int {
+	select {
+	case <-c.tagKnown:
+		return int(c.Tag & 0xff)
+	case <-c.readDone:
+	case <-time.After(patience):
+	}
+	select {
+	case <-c.tagKnown:
+		return int(c.Tag & 0xff)
+	default:
+		return 0
 	}
 }
 
